@@ -83,6 +83,70 @@ fn scalar_forms(r: &mut Rec, rng: &mut Rng) {
     });
 }
 
+/// every scalar of interest against a bank of tiny and boundary big operands, value and assign forms:
+/// fast paths keyed on a half of the scalar being zero or on a zero / one big operand are all met
+fn scalar_matrix(r: &mut Rec) {
+    let bigs: Vec<Vec<u64>> = vec![vec![], vec![1], vec![u64::MAX], vec![0, 1], vec![u64::MAX, u64::MAX], vec![0, 0, 1], vec![1, 0, u64::MAX]];
+    let s64s = [0u64, 1, 2, 1 << 32, (1 << 32) - 1, 1 << 63, u64::MAX];
+    let s128s = [0u128, 1, 1 << 64, (1 << 64) + 1, (1 << 64) - 1, 3 << 64, 1 << 100, 1 << 127, u128::MAX, u128::MAX << 64];
+    let i128s = [0i128, -1, 1, i128::MIN, i128::MAX, -(1 << 64), 1 << 64, -(3 << 64), i64::MIN as i128];
+    let ex = |s: &Sc| ex_sc("U", &[s.clone()], "rc");
+    let exi = |s: &Sc| ex_sc("I", &[s.clone()], "rc");
+    for (k, b) in bigs.iter().enumerate() {
+        if !r.case(&format!("scalar matrix {}", k)) {
+            continue;
+        }
+        load_u(r, 0, b);
+        for &s in &s64s {
+            r.op("mul", "ref_u64", &[u(0)], &[u(2)], &ex(&s.sc()), |g| {
+                g.u[2] = &g.u[0] * s;
+                Ret::none()
+            });
+            r.clone_u(0, 2);
+            r.op("mul", "assign_u64", &[u(2)], &[u(2)], &ex(&s.sc()), |g| {
+                g.u[2] *= s;
+                Ret::none()
+            });
+        }
+        for &s in &s128s {
+            r.op("mul", "u128_ref", &[u(0)], &[u(2)], &ex(&s.sc()), |g| {
+                g.u[2] = s * &g.u[0];
+                Ret::none()
+            });
+            r.op("mul", "val_u128", &[u(0)], &[u(2)], &ex(&s.sc()), |g| {
+                g.u[2] = g.u[0].clone() * s;
+                Ret::none()
+            });
+            r.clone_u(0, 2);
+            r.op("mul", "assign_u128", &[u(2)], &[u(2)], &ex(&s.sc()), |g| {
+                g.u[2] *= s;
+                Ret::none()
+            });
+        }
+        for sign in [Sign::Plus, Sign::Minus] {
+            load_i_from_u(r, 0, sign, 0);
+            for &s in &i128s {
+                r.op("mul", "ref_i128", &[i(0)], &[i(2)], &exi(&s.sc()), |g| {
+                    g.i[2] = &g.i[0] * s;
+                    Ret::none()
+                });
+                r.clone_i(0, 2);
+                r.op("mul", "assign_i128", &[i(2)], &[i(2)], &exi(&s.sc()), |g| {
+                    g.i[2] *= s;
+                    Ret::none()
+                });
+            }
+            for &s in &[0i64, -1, i64::MIN, i64::MAX, -(1 << 32)] {
+                r.clone_i(0, 2);
+                r.op("mul", "assign_i64", &[i(2)], &[i(2)], &exi(&s.sc()), |g| {
+                    g.i[2] *= s;
+                    Ret::none()
+                });
+            }
+        }
+    }
+}
+
 fn one_case(r: &mut Rec, label: &str, a: &[u64], b: &[u64], nforms: u64) {
     if !r.case(label) {
         return;
@@ -121,6 +185,7 @@ fn square_case(r: &mut Rec, label: &str, a: &[u64]) {
 
 pub fn run(r: &mut Rec) {
     let mut rng = Rng(r.seed ^ 0xC02);
+    scalar_matrix(r);
     // small shapes: every form, dense coverage of lengths 0..6 and the long-multiplication regime
     let small: Vec<usize> = if r.thorough { (0..=12).collect() } else { vec![0, 1, 2, 3, 5, 8] };
     for &la in &small {
